@@ -5,7 +5,7 @@
 From Coq Require Import ZArith List.
 From NTT Require Import Functors Algebra Inverse NTTInst NTTClosed NTTTables Shards Permut Tables FlatTable Fused GenEq.
 From NTT.gen Require Gen GenLoop.
-From NTT Require Structural GenLoopEq ScalarOps GenPrepEq.
+From NTT Require Structural GenLoopEq ScalarOps GenPrepEq InitSpec GenInitEq PrepSpec.
 From NTT.gen Require Import Params.
 Local Open Scope Z_scope.
 
@@ -162,3 +162,37 @@ Theorem C02_source_tables_then_transform_u64 : forall fuel k p pn om A0 B0 cm x0
     GenLoop.gen_ntt_serial_u64 (Z.of_nat (2 ^ k)) x0 0 WA 0 WB 0 p = out /\ GenLoop.gen_ntt_sse_u64 (Z.of_nat (2 ^ k)) x0 0 WA 0 WB 0 p = out /\ GenLoop.gen_ntt_avx2_u64 (Z.of_nat (2 ^ k)) x0 0 WA 0 WB 0 p = out).
 Proof. exact GenPrepEq.source_tables_then_transform_u64. Qed.
 Print Assumptions C02_source_tables_then_transform_u64.
+
+(* core::initialize() OF THE SOURCE, translated by tools/cxxloop2coq.py on every run (gen_initialize_uN): the loop over the moduli; the
+   squarings of the tabulated root; the tables phis / shoupphis (two-dimensional member arrays, flat index cm*degree + i); invphi from
+   phis[cm][degree-1]; invpolyDegree[cm]; the table invpoly_times_invphis and its Shoup companion; and the twiddle tables through prep_wtab
+   called with BOTH pointers inside one array (omegas[cm] and shoupomegas[cm] = omegas[cm] + degree: the pointer-array members are tracked as
+   aliases, the callee is translated with the two pointers in one array -- gen_prep_wtab1_uN -- and proved to write the two regions and
+   nothing else: PrepSpec1.v).  For any degree n = 2^(k0+1) <= maxdeg, any number of moduli and any initial contents of the arrays, every
+   access stays inside its array and at the end, for every modulus c and index i, the arrays hold exactly the tables of NTTInst.v -- the
+   model all transform theorems (the C01_product and C02_transforms theorems) are stated on: phis, cs (= n^-1 invphi^i), ninv, and the flat twiddle
+   tables (FlatTable.flat of omega / invomega) at the start of row c of omegas / invomegas with their Shoup companions n words further,
+   which is where ntt_pow_phi / invntt_pow_invphi pass them to core::ntt. *)
+Theorem C02_source_initialize : forall P Pn roots invk,
+  GenInitEq.init_statement 16 9 (GenInitEq.rowok16 P roots invk) (fun fuel degree om iom ph sph ipd ipi sipi nm => GenLoop.gen_initialize_u16 fuel degree om iom ph sph ipd ipi sipi nm roots P invk) P roots invk /\
+  GenInitEq.init_statement 32 15 (GenInitEq.rowok32 P roots invk) (fun fuel degree om iom ph sph ipd ipi sipi nm => GenLoop.gen_initialize_u32 fuel degree om iom ph sph ipd ipi sipi nm roots P invk) P roots invk /\
+  GenInitEq.init_statement 64 20 (GenInitEq.rowok64 P Pn roots invk) (fun fuel degree om iom ph sph ipd ipi sipi nm => GenLoop.gen_initialize_u64 fuel degree om iom ph sph ipd ipi sipi nm roots P Pn invk) P roots invk.
+Proof. exact (fun P Pn roots invk => conj (GenInitEq.source_initialize_u16 P roots invk) (conj (GenInitEq.source_initialize_u32 P roots invk) (GenInitEq.source_initialize_u64 P Pn roots invk))). Qed.
+Print Assumptions C02_source_initialize.
+(* what init_statement says, unfolded *)
+Theorem C02_source_initialize_statement : forall bits K rowok run P roots invk, GenInitEq.init_statement bits K rowok run P roots invk <->
+  (forall (k0 nm fuel : nat) (ph0 sph0 ipd0 ipi0 sipi0 om0 iom0 : list Z), let n := (2 ^ S k0)%nat in
+   (S k0 <= K)%nat -> (S k0 < fuel)%nat -> Z.of_nat nm < 2 ^ 28 -> (forall cm, (cm < nm)%nat -> rowok cm) ->
+   length ph0 = (nm * n)%nat -> length sph0 = (nm * n)%nat -> length ipd0 = nm -> length ipi0 = (nm * n)%nat -> length sipi0 = (nm * n)%nat ->
+   length om0 = (nm * (n * 2))%nat -> length iom0 = (nm * (n * 2))%nat ->
+   exists ph sph ipd ipi sipi om iom, run fuel (Z.of_nat n) om0 iom0 ph0 sph0 ipd0 ipi0 sipi0 (Z.of_nat nm) = Some (ph, sph, ipd, ipi, sipi, om, iom) /\
+   forall c, (c < nm)%nat -> let p := nth c P 0 in let g := nth c roots 0 in let ik := nth c invk 0 in let sh := map (PrepSpec.shoup bits p) in
+     nth c ipd 0 = NTTInst.ninv p ik K k0 /\
+     (forall i, (i < n)%nat -> nth (c * n + i) ph 0 = nth i (NTTInst.phis p g K k0) 0 /\ nth (c * n + i) sph 0 = nth i (sh (NTTInst.phis p g K k0)) 0 /\
+                               nth (c * n + i) ipi 0 = nth i (NTTInst.cs p g ik K k0) 0 /\ nth (c * n + i) sipi 0 = nth i (sh (NTTInst.cs p g ik K k0)) 0) /\
+     (forall i, (i < n - 1)%nat -> nth (c * (n * 2) + i) om 0 = nth i (FlatTable.flat p (S k0) (NTTInst.omega p g K k0)) 0 /\
+                                   nth (c * (n * 2) + n + i) om 0 = nth i (sh (FlatTable.flat p (S k0) (NTTInst.omega p g K k0))) 0 /\
+                                   nth (c * (n * 2) + i) iom 0 = nth i (FlatTable.flat p (S k0) (NTTInst.invomega p g K k0)) 0 /\
+                                   nth (c * (n * 2) + n + i) iom 0 = nth i (sh (FlatTable.flat p (S k0) (NTTInst.invomega p g K k0))) 0)).
+Proof. intros. unfold GenInitEq.init_statement. split; intros H; exact H. Qed.
+Print Assumptions C02_source_initialize_statement.
